@@ -48,12 +48,43 @@ ServerProfile ServerProfile::fromPlan(const Plan &p)
     s.autoAck = p.knob(QStringLiteral("autoAck"), 1);
     s.autoRoster = p.knob(QStringLiteral("autoRoster"), 1);
     s.assignOtherJid = p.knob(QStringLiteral("otherJid"), 0);
+    s.mute = p.knob(QStringLiteral("mute"), 0);
     for (auto it = p.sknobs.begin(); it != p.sknobs.end(); ++it) {
         if (it.key().startsWith(QLatin1String("q."))) {
             s.quirks[it.key().mid(2)] = it.value();
         }
     }
     return s;
+}
+
+void ServerProfile::set(const QString &key, const QString &value)
+{
+    auto list = [&] { return value.isEmpty() ? QStringList() : value.split(QLatin1Char(',')); };
+    if (key == QLatin1String("tls")) {
+        tls = value.toInt();
+    } else if (key == QLatin1String("tlsAnswer")) {
+        tlsAnswer = value.toInt();
+    } else if (key == QLatin1String("sasl1")) {
+        sasl1 = list();
+    } else if (key == QLatin1String("sasl2")) {
+        sasl2 = list();
+    } else if (key == QLatin1String("legacy")) {
+        legacyAuth = value.toInt();
+    } else if (key == QLatin1String("hdrVersion")) {
+        headerVersion = value.toInt();
+    } else if (key == QLatin1String("bind2")) {
+        bind2 = value.toInt();
+    } else if (key == QLatin1String("sm")) {
+        sm = value.toInt();
+    } else if (key == QLatin1String("mute")) {
+        mute = value.toInt();
+    } else if (key.startsWith(QLatin1String("q."))) {
+        if (value.isEmpty()) {
+            quirks.remove(key.mid(2));
+        } else {
+            quirks[key.mid(2)] = value;
+        }
+    }
 }
 
 // ---------------------------------------------------------------- ScriptedServer
@@ -200,6 +231,9 @@ void ServerConn::onHeader(const QByteArray &raw)
     ReceivedItem r { index, link->encrypted, raw, QStringLiteral("stream"), {}, {}, {}, simxml::header(raw, "to"), false, g_now_ms, 0, {} };
     srv->received.append(r);
     const auto &p = srv->profile;
+    if (p.mute) {
+        return;
+    }
     streamId = QStringLiteral("stream%1x%2").arg(++srv->streamCounter).arg(srv->rng.uniform(100000));
     QByteArray h = "<?xml version='1.0'?><stream:stream xmlns='jabber:client' xmlns:stream='http://etherx.jabber.org/streams' from='" + p.domain.toUtf8() + "'";
     if (p.headerId) {
@@ -331,6 +365,9 @@ void ServerConn::onElement(const QByteArray &raw)
     srv->received.append(r);
     if (el.isNull()) {
         srv->say(QStringLiteral("server: unparsable element from client: ") + QString::fromUtf8(raw.left(80)));
+        return;
+    }
+    if (srv->profile.mute) {
         return;
     }
     if (ns == QLatin1String(NS_TLS) && tag == QLatin1String("starttls")) {
